@@ -107,6 +107,14 @@ func c05() {
 	go srv.Run() //nolint:errcheck
 	rng := R.Rand("c05")
 	cases := c05Cases(rng)
+	// thorough: further rounds of the same generator with other random contents, fragmentations and outcomes
+	for round := 1; round < vr.Pick(1, 12); round++ {
+		more := c05Cases(R.Rand(fmt.Sprintf("c05-round%d", round)))
+		for i := range more {
+			more[i].ID = fmt.Sprintf("seq%d/%d", round, i)
+		}
+		cases = append(cases, more...)
+	}
 	R.Set("cases_generated", len(cases))
 	// sequential phase
 	for _, c := range cases {
@@ -118,6 +126,9 @@ func c05() {
 	}
 	// concurrent phase: 64 workers over a shuffled copy with fresh logins
 	conc := c05Cases(R.Rand("c05-conc"))
+	for round := 1; round < vr.Pick(1, 20); round++ {
+		conc = append(conc, c05Cases(R.Rand(fmt.Sprintf("c05-conc%d", round)))...)
+	}
 	rng.Shuffle(len(conc), func(i, j int) { conc[i], conc[j] = conc[j], conc[i] })
 	if len(conc) > vr.Pick(3000, 60000) {
 		conc = conc[:vr.Pick(3000, 60000)]
